@@ -159,6 +159,9 @@ QFile g_sinkfile;               /* the QFile owned by the sink (FileSink::file()
 static inline BOOL QSharedPointer_QIODevice_isNull(QSharedPointer_QIODevice p) { return p.p == NULL; }
 static inline QIODevice *QSharedPointer_QIODevice_op_arrow(QSharedPointer_QIODevice p) { return p.p; }
 static inline QIODevice *QSharedPointer_QIODevice_data(QSharedPointer_QIODevice p) { return p.p; }
+static inline QIODevice *QSharedPointer_QIODevice_get(QSharedPointer_QIODevice p) { return p.p; }
+static inline BOOL QSharedPointer_QIODevice_op_not(QSharedPointer_QIODevice p) { return p.p == NULL; }          /* !ptr */
+static inline BOOL QSharedPointer_QIODevice_op_tobool(QSharedPointer_QIODevice p) { return p.p != NULL; }       /* if (ptr) */
 static inline QString fs_active_name(void) { QString s = fs_str(T_ACTIVE); s.id = 1; s.len = 8; return s; }
 static inline QString QFile_fileName(QFile *f)
 {
@@ -406,7 +409,7 @@ static inline int QString_toInt(QString s) { if (s.tag == T_CAPTURE || s.tag == 
 
 /* ------------------------------------------------------------------ directory listing and string lists */
 enum { L_OTHER = 0, L_ENTRIES, L_BUILD, L_ROTLIST };
-typedef struct { int n; int kind; int lo; int sorted; int own; } QList_QString;    /* own: number of own rotated entries (L_ENTRIES) */
+typedef struct { int n; int kind; int lo; int sorted; int own; unsigned long long rm0; } QList_QString;    /* own: number of own rotated entries (L_ENTRIES); rm0: QFile::remove calls so far when the list was sorted */
 typedef struct { QList_QString _base; } QStringList;
 typedef struct { QList_QString *l; int i; } QList_QString_const_iterator;
 typedef QList_QString_const_iterator QList_QString_iterator;
@@ -509,6 +512,7 @@ static inline void QList_QString_append__QString(QList_QString *l, QString s)
     OBL_C06(!(aa), "comparator is irreflexive (strict weak ordering required by std::sort)"); \
     OBL_C06(!(g_w[0].exists && g_w[1].exists && g_w[0].seq < g_w[1].seq) || ((ab) && !(ba)), "comparator_total: of two rotated files the one rotated earlier sorts first (oldest first)"); \
     OBL_C06(!(g_w[0].exists && g_w[1].exists && g_w[1].seq < g_w[0].seq) || ((ba) && !(ab)), "comparator_total: of two rotated files the one rotated earlier sorts first (oldest first), swapped"); \
+    (first).l->rm0 = g_removes; \
     (first).l->sorted = ((first).i == (first).l->lo && (last).i == (first).l->n) \
         && (!(g_w[0].exists && g_w[1].exists) || (g_w[0].seq < g_w[1].seq ? ((ab) && !(ba)) : ((ba) && !(ab)))); \
     if ((first).l->kind == L_BUILD) (first).l->kind = L_ROTLIST
@@ -535,7 +539,13 @@ static inline QString *QList_QString_first(QList_QString *l)
 static inline QString *QList_QString_last(QList_QString *l)
 { __CPROVER_assert(l->n - l->lo > 0, "QList::last() on a non-empty list"); if (l->kind == L_ROTLIST) g_first_cell = fs_pick_element(l, 0); else g_first_cell = fs_str(T_OTHER); return &g_first_cell; }
 static inline QString QList_QString_at__int(QList_QString l, int i)
-{ __CPROVER_assert(0 <= i && i < l.n - l.lo, "QList::at index in range"); if (l.kind == L_ROTLIST) return fs_pick_element(&l, l.sorted && i == 0); return fs_str(T_OTHER); }
+{ __CPROVER_assert(0 <= i && i < l.n - l.lo, "QList::at index in range"); /* the list of rotated files, oldest first: element 0 is the oldest existing one; element lo+i is the oldest EXISTING one once exactly the
+   * lo+i files in front of it have been removed (every removal is checked to take the oldest existing file: OBL_C06 at QFile::remove) */
+  if (l.kind == L_ROTLIST) return fs_pick_element(&l, l.sorted && (i == 0 || (unsigned long long)l.lo + (unsigned long long)i == g_removes - l.rm0));
+  if (l.kind == L_ENTRIES) { QList_QString_const_iterator it; it.l = &l; it.i = l.lo + i; return QList_QString_const_iterator_op_deref(it); }     /* a directory listing read by index: the same entries as by iterator */
+  return fs_str(T_OTHER); }
+static inline QString QList_QString_op_index__int(QList_QString l, int i) { return QList_QString_at__int(l, i); }
+static inline QString QList_QString_value__int(QList_QString l, int i) { if (i < 0 || i >= l.n - l.lo) return fs_str(T_OTHER); return QList_QString_at__int(l, i); }
 static inline QString QList_QString_takeFirst(QList_QString *l)
 { QString s = *QList_QString_first(l); l->lo++; return s; }
 static inline void QList_QString_removeFirst(QList_QString *l) { __CPROVER_assert(l->n - l->lo > 0, "QList::removeFirst() on a non-empty list"); l->lo++; }
